@@ -88,6 +88,7 @@ type mxCfg struct {
 	cred           string // "" | user | userpass | userempty
 	cert           string // ok | other | untrusted
 	skipVerify     bool
+	hostHdr        string // Host entry in the caller's request header ("" = none); oracle-only variant
 }
 
 func serveBackend(c net.Conn, o *mxObs, cfg mxCfg, done *sync.WaitGroup) {
@@ -308,7 +309,11 @@ func runMatrixCell(cfg mxCfg) (o *mxObs, conn *websocket.Conn, err error, panick
 				panicked = fmt.Sprint(p)
 			}
 		}()
-		conn, _, err = d.Dial(u, nil)
+		var rh http.Header
+		if cfg.hostHdr != "" {
+			rh = http.Header{"Host": {cfg.hostHdr}}
+		}
+		conn, _, err = d.Dial(u, rh)
 	}()
 	for i := 0; i < len(raws); i += 2 {
 		if raws[i].(*aconn).closedHere() {
@@ -472,6 +477,32 @@ func runMatrixScenario(seed int64, idx int) *scenario {
 		}
 	} else if !okDial {
 		sc.violate("ws dial failed: %v (server side: %v)", err, o.serverErrs)
+	}
+	if cfg.wss {
+		// the same cell with a Host entry in the caller's header: the name the certificate is
+		// verified for is the URL's host, whatever the Host header says (oracle only)
+		cfg2 := cfg
+		cfg2.hostHdr = "other.test"
+		o2, c2, err2, p2 := runMatrixCell(cfg2)
+		ok2 := err2 == nil && c2 != nil
+		if p2 != "" {
+			sc.violate("Dial with a Host header panicked: %s", p2)
+		}
+		trusted := cfg.cert == "ok" || cfg.skipVerify
+		libVerifies := !(cfg.ndtls && cfg.proxy == "")
+		if !trusted && libVerifies && (ok2 || o2.upgrades > 0) {
+			sc.violate("wss with Host header other.test: certificate %q (skipVerify=%v) is not valid for the URL's host but dial ok=%v and %d requests reached the backend", cfg.cert, cfg.skipVerify, ok2, o2.upgrades)
+		}
+		if cfg.cert == "ok" && !ok2 {
+			sc.violate("wss with Host header other.test and a certificate valid for the URL's host failed: %v (server side: %v)", err2, o2.serverErrs)
+		}
+		if libVerifies && len(o2.backendSNI) > 0 && o2.backendSNI[len(o2.backendSNI)-1] != "backend.test" {
+			sc.violate("wss with Host header other.test: TLS to the backend used ServerName %q", o2.backendSNI[len(o2.backendSNI)-1])
+		}
+		if c2 != nil {
+			c2.NetConn().Close()
+		}
+		sc.tag("mx:hosthdr")
 	}
 	// the first hop uses the applicable custom dial function
 	if len(o.dials) > 0 {
